@@ -22,6 +22,7 @@ func init() {
 	register(&Prop{ID: "C10", Run: runC10, Procs: true, Replay: map[string]func(*mc.Ctx, json.RawMessage){
 		"tx":    replayer(c10EvalTx),
 		"block": replayer(c10EvalBlock),
+		"hist":  replayer(c10EvalHist),
 	}})
 }
 
@@ -735,6 +736,7 @@ func runC10(c *mc.Ctx) {
 		})
 	}
 	c.Sample("tx", c10Tx{Content: "K1", Outs: []string{"p2pk-K1"}, Ins: []string{"spend-E0"}, Flags: 2, Geom: "mid"})
+	runC10Hist(c)
 
 	// ---- blocks
 	outsAlpha := []string{"W", "H", "U", "UW", "WU", "M"}
